@@ -18,8 +18,9 @@ SCRATCH = os.path.expanduser("~/scratch/mutant-repo")
 M = []
 
 
-def mutant(name, props, file, old, new, count=1):
-    M.append({"name": name, "props": props, "file": file, "old": old, "new": new, "count": count})
+def mutant(name, props, file, old, new, count=1, more=()):
+    M.append({"name": name, "props": props, "file": file, "old": old, "new": new, "count": count,
+              "more": list(more)})
 
 
 I = "simfile/__init__.py"
@@ -47,10 +48,15 @@ mutant("c05-backup-in-utf8", ["C05"], I,
 # ------------------------------------------------------------------ C06
 mutant("c06-exception-swallowed", ["C06"], I, '    except:\n        raise\n', '    except Exception:\n        return\n')
 mutant("c06-cancel-writes-output", ["C06"], I,
-       '    except CancelMutation:\n        return  # Don\'t re-raise\n',
-       '    except CancelMutation:\n        pass\n')
+       "    except CancelMutation:\n        return  # Don't re-raise\n    except:\n        raise\n    else:\n",
+       "    except CancelMutation:\n        pass\n    except:\n        raise\n    if True:\n")
 mutant("c06-revert-serialise-first", ["C06"], I,
-       '            writer.write(output_data)\n', '            simfile.serialize(cast(TextIO, writer))\n')
+       '''        output_data = str(simfile)
+        errors = kwargs.get("errors") or "strict"
+        output_data.encode(encoding, errors)
+        backup_data.encode(encoding, errors)
+''', "", more=[("            writer.write(output_data)\n",
+                 "            simfile.serialize(cast(TextIO, writer))\n")])
 mutant("c06-output-opened-before-backup", ["C06"], I,
        '''        # Write backup file if requested
         if backup_filename:
@@ -111,7 +117,7 @@ mutant("c06-no-encode-precheck", ["C06"], I, '        output_data.encode(encodin
 # ------------------------------------------------------------------ C03
 mutant("c03-strict-not-forwarded-to-detection", ["C03"], I, '_detect_ssc(file, strict=strict)', '_detect_ssc(file)')
 mutant("c03-suffix-test-case-sensitive", ["C03"], I, 'file.name.lower().rpartition(".")', 'file.name.rpartition(".")')
-mutant("c03-sm-upper-dropped", ["C03", "C04"], "simfile/sm.py",
+mutant("c03-sm-upper-dropped", ["C03"], "simfile/sm.py",
        '        for param in parser:\n            key = param.key.upper()\n            if key == "NOTES":',
        '        for param in parser:\n            key = param.key\n            if key.upper() == "NOTES":')
 mutant("c03-first-duplicate-wins", ["C03"], "simfile/sm.py",
@@ -149,7 +155,7 @@ mutant("c02-notedata-omitted-for-empty-chart", ["C02"], "simfile/ssc.py",
 mutant("c02-chart-multi-value-escaped", ["C02"], "simfile/ssc.py",
        '            elif key in BaseSimfile.MULTI_VALUE_PROPERTIES:\n                param = MSDParameter((key, *value.split(":")))\n            else:\n                param = MSDParameter((key, value))\n            file.write(f"{param}\\n")\n\n        notes = ',
        '            else:\n                param = MSDParameter((key, value))\n            file.write(f"{param}\\n")\n\n        notes = ')
-mutant("c04-blank-line-between-header-and-charts-dropped-and-value-stripped", ["C04", "C01"], "simfile/sm.py",
+mutant("c01-loader-strips-trailing-newline-of-values", ["C01"], "simfile/sm.py",
        '                self[key] = param.value\n\n    @classmethod\n    def blank(cls: Type["SMSimfile"])',
        '                self[key] = param.value.rstrip("\\n") if param.value else param.value\n\n    @classmethod\n    def blank(cls: Type["SMSimfile"])')
 # ------------------------------------------------------------------ C18
@@ -175,7 +181,10 @@ mutant("c19-extension-match-case-sensitive", ["C19"], "simfile/_private/extensio
 mutant("c19-sm-preferred-over-ssc", ["C19"], D, '        return self.ssc_path or self.sm_path', '        return self.sm_path or self.ssc_path')
 mutant("c19-isdir-test-dropped", ["C19"], D,
        '            if not self.filesystem.isdir(simfile_path):\n                continue\n',
-       '            if not self.filesystem.exists(simfile_path):\n                continue\n            if not self.filesystem.isdir(simfile_path):\n                yield simfile_path if extensions.match(pack_item, *extensions.SIMFILE) else None\n                continue\n')
+       '            if not self.filesystem.exists(simfile_path):\n                continue\n')
+mutant("c19-pack-descends-one-more-level", ["C19"], D,
+       '                if extensions.match(simfile_item, *extensions.SIMFILE):\n                    yield simfile_path\n                    break\n',
+       '                if extensions.match(simfile_item, *extensions.SIMFILE):\n                    yield simfile_path\n                    break\n                nested = self._path.join(simfile_path, simfile_item)\n                if self.filesystem.isdir(nested) and any(\n                    extensions.match(i, *extensions.SIMFILE) for i in self.filesystem.listdir(nested)\n                ):\n                    yield simfile_path\n                    break\n')
 mutant("c19-ignore-duplicate-keeps-last", ["C19"], D,
        '                    if self.sm_path:\n                        if self._ignore_duplicate:\n                            continue\n',
        '                    if self.sm_path:\n                        if self._ignore_duplicate:\n                            self.sm_path = simfile_path\n                            continue\n')
@@ -190,9 +199,9 @@ mutant("c19-match-anywhere-not-suffix", ["C19"], "simfile/_private/extensions.py
        '        if lower_path.endswith(extension):', '        if extension in lower_path:')
 # ------------------------------------------------------------------ C20
 A = "simfile/assets.py"
-mutant("c20-cache-dropped-from-pattern-branch", ["C20"], A,
-       '            if asset_definition.matches(file_in_simfile_dir):\n                return self._cache_path(prop, file_in_simfile_dir)',
-       '            if asset_definition.matches(file_in_simfile_dir):\n                return self._path.normpath(self._path.join(self.simfile_dir, file_in_simfile_dir))')
+mutant("c20-cache-dropped-from-specified-branch", ["C20"], A,
+       '            if case_insensitive_path:\n                return self._cache_path(prop, case_insensitive_path, absolute=True)',
+       '            if case_insensitive_path:\n                return self._path.normpath(case_insensitive_path)')
 mutant("c20-bn-anywhere", ["C20"], A, 'presets=["banner", "bn$"],', 'presets=["banner", "bn"],')
 mutant("c20-case-insensitive-match-dropped", ["C20"], A,
        '                if item.lower() == filename_lower:', '                if item == filename:')
@@ -202,8 +211,9 @@ mutant("c20-nonexistent-specified-path-returned", ["C20"], A,
 mutant("c20-pack-banner-priority-ignored", ["C20"], D,
        '        for image_type in extensions.IMAGE:\n            for pack_item in self.filesystem.listdir(self.pack_dir):\n                if extensions.match(pack_item, image_type):\n                    return self._path.join(self.pack_dir, pack_item)',
        '        for pack_item in self.filesystem.listdir(self.pack_dir):\n            if extensions.match(pack_item, *extensions.IMAGE):\n                return self._path.join(self.pack_dir, pack_item)')
-mutant("c20-dirlist-refreshed-each-lookup", ["C20"], A,
-       '        for file_in_simfile_dir in self._dirlist:', '        for file_in_simfile_dir in self.filesystem.listdir(self.simfile_dir):')
+mutant("c20-dirlist-refreshed-and-not-cached", ["C20"], A,
+       '        for file_in_simfile_dir in self._dirlist:\n            if asset_definition.matches(file_in_simfile_dir):\n                return self._cache_path(prop, file_in_simfile_dir)',
+       '        for file_in_simfile_dir in self.filesystem.listdir(self.simfile_dir):\n            if asset_definition.matches(file_in_simfile_dir):\n                return self._path.normpath(self._path.join(self.simfile_dir, file_in_simfile_dir))')
 mutant("c20-jacket-prefix-anywhere", ["C20"], A, 'presets=["^jk_", "jacket", "albumart"],', 'presets=["jk_", "jacket", "albumart"],')
 mutant("c20-music-by-stem", ["C20"], A,
        '        if self.match_by_extension and extensions.match(path, *self.extensions):', '        if self.match_by_extension and extensions.match(root + _, *self.extensions[:3]):')
@@ -228,7 +238,11 @@ def main():
             results.append((m["name"], "PATCH-DOES-NOT-APPLY", ""))
             print("%-55s PATCH-DOES-NOT-APPLY" % m["name"])
             continue
-        open(path, "w").write(src.replace(m["old"], m["new"], m["count"]))
+        src = src.replace(m["old"], m["new"], m["count"])
+        for o, n in m["more"]:
+            assert o in src, (m["name"], o)
+            src = src.replace(o, n, 1)
+        open(path, "w").write(src)
         t = run(["/venv/bin/python", "-m", "pytest", "-q", "-p", "no:cacheprovider", "-x",
                  "--deselect", "simfile/tests/test_assets.py::TestAssets::test_predefined_assets"],
                 cwd=SCRATCH, env=dict(os.environ, PYTHONPATH=SCRATCH))
